@@ -35,9 +35,12 @@ class Cfg(object):
         self.project_abs = True
         self.solo = True
         self.fixed_ids = True
+        self.p_fix = 6  # 1 in p_fix tasks has a fixed worker-ID list (likewise a fixed facility-ID list)
         self.facilities = False  # profile F
         self.max_comps = 5
         self.max_wps = 4
+        self.min_comps = 0
+        self.min_wps = 0
         self.max_facs_per_wp = 3
         self.inputs = True  # conveyor links between workplaces
         # profile N: False | "assembly" (depth-1 forest, every task of a parent component FS-depends
@@ -147,8 +150,8 @@ def model_spec(draw, cfg):
     n_comps = n_wps = 0
     facs = []
     if cfg.facilities:
-        n_comps = draw(st.integers(0, cfg.max_comps))
-        n_wps = draw(st.integers(0, cfg.max_wps))
+        n_comps = draw(st.integers(min(cfg.min_comps, cfg.max_comps), cfg.max_comps))
+        n_wps = draw(st.integers(min(cfg.min_wps, cfg.max_wps), cfg.max_wps))
         for w in range(n_wps):
             for _ in range(draw(st.integers(0, cfg.max_facs_per_wp))):
                 facs.append({"wp": w})
@@ -186,11 +189,11 @@ def model_spec(draw, cfg):
             if cfg.per_task_rules:
                 t["wpr"] = draw(st.sampled_from([0, 1]))
                 t["fr"] = draw(st.sampled_from([-1, 0, 1, 2]))
-        if cfg.fixed_ids and n_workers > 0 and _one_in(draw, 6):
+        if cfg.fixed_ids and n_workers > 0 and _one_in(draw, cfg.p_fix):
             t["fixw"] = draw(
                 st.lists(st.integers(0, n_workers - 1), unique=True, max_size=3)
             )
-        if cfg.fixed_ids and t["nf"] and facs and _one_in(draw, 6):
+        if cfg.fixed_ids and t["nf"] and facs and _one_in(draw, cfg.p_fix):
             t["fixf"] = draw(
                 st.lists(st.integers(0, len(facs) - 1), unique=True, max_size=3)
             )
